@@ -47,7 +47,8 @@ def gen_case(rng, tier, i):
         return {"fam": "tick", "driver": ["start", "step", "run_up_to"][j % 3], "at": 1 + (j // 3) % 4, "length": rng.choice([6, 10]),
                 "start": rng.choice([0.0, 0.0, 5.0]), "earlier": (j // 12) % 2}
     clock = ["float", "float", "duration", "int"][(i // len(HIST)) % 4]      # every history meets every clock
-    prog = gen_program(rng, clock=clock, n_events=rng.randint(4, 25), with_bad=False)
+    # (one case in seven: a replication that starts before the simulator's own initial time - at a negative time)
+    prog = gen_program(rng, clock=clock, n_events=rng.randint(4, 25), with_bad=False, start_at=(-10 if i % 7 == 3 else None))
     if rng.random() < 0.85:
         add_stats(rng, prog, watch=False, plain=True)
     if rng.random() < 0.7:
